@@ -431,7 +431,11 @@ def alpha(node, small=False):
         return out
     if isinstance(node, (vol.All, vol.Any)):
         out = []
-        for sub in node.validators:
+        # the hand-picked candidates of function validators first (they hold the near-miss invalid shapes)
+        subs = [x for x in node.validators if callable(x) and getattr(x, "__name__", "") in _FUNCS] + [
+            x for x in node.validators if not (callable(x) and getattr(x, "__name__", "") in _FUNCS)
+        ]
+        for sub in subs:
             out += alpha(sub, small)
         return out
     if isinstance(node, vol.In):
@@ -469,7 +473,9 @@ def alpha(node, small=False):
             out += [[good[0], good[1]], [good[1], good[0]], good[:3] * 4]
         if len(good) >= 4:
             out += [[good[2], good[3]], good[:8]]
-        out += [[e] for e in bad[:3 if small else 8]]
+        out += [[e] for e in bad[:3 if small else 12]]
+        if good and len(bad) > 1:
+            out += [[good[0], bad[1]], [bad[0], good[0]]]
         if good and bad:
             out += [[good[0], bad[0]]]
         out += ["abc", 5, None, {"a": 1}]
@@ -518,14 +524,21 @@ def alpha(node, small=False):
             return [[1, 2, 3], [3, 2, 1], [1, 1], [], [1], [1.5, 2], [0, 0.5, 10, 365.25]]
         if name == "_mutuallyExclusiveCyclesInputs":
             return [
+                # near-miss invalid: two (or three) ways of giving the time history in one entry
+                {"cumulative days": [1, 2], "burn steps": 2},
+                {"step days": ["1", "2R"], "cycle length": 10.0},
+                {"cumulative days": [1, 2], "cycle length": 10.0},
+                {"step days": ["1", "2R"], "burn steps": 2},
+                {"cumulative days": [1], "step days": ["1"]},
+                {"cumulative days": [1, 2], "step days": ["1"], "cycle length": 10.0, "burn steps": 2},
+                {"name": "mixed", "cumulative days": [1, 2], "burn steps": 2, "power fractions": ["1.0", "0.5"]},
+                {"name": "x"},
+                # valid
                 {"cumulative days": [1, 2]},
                 {"step days": ["1", "2R"]},
                 {"cycle length": 10, "burn steps": 2},
                 {"cycle length": 10.5},
                 {"burn steps": 2},
-                {"name": "x"},
-                {"cumulative days": [1], "step days": ["1"]},
-                {"cumulative days": [1], "burn steps": 1},
                 {"name": "c", "cumulative days": [5, 10.5], "power fractions": ["1.0", "0.5"], "availability factor": 0.9},
                 {"name": "a: b", "step days": [1, 2.5, "3R"], "power fractions": [1, 0.5, "3R"], "availability factor": 1},
             ]
